@@ -6,8 +6,9 @@ op lines carry the decoded request (`-` = field absent, `body=bad` = undecodable
 namespace Driver.D18
 open US
 
-abbrev St := Store
-def init : St := []
+/-- the database, and the list results the caller still holds (`db.hold`), oldest first -/
+abbrev St := Store × List (List (Held × Rec))
+def init : St := ([], [])
 def pfx : String := "db."
 
 def optInt (m : KV) (k : String) : Option (Option Int) :=
@@ -116,13 +117,47 @@ def parseOp (cmd : String) (m : KV) : Option Op :=
   | "db.reopen" => pure .reopen
   | _ => none
 
+def heldUid : Held → Bytes
+  | .own bs => bs
+  | .txmem bs => bs
+
+/-- `items=orig:seen,...` — for each entry of a held list result, the UID it had when returned and the UID
+it shows now (`!` = looking at it faulted) -/
+def parseItems (s : String) : Option (List (Bytes × Option Bytes)) :=
+  if s == "-" then some []
+  else (s.splitOn ",").mapM fun item =>
+    match item.splitOn ":" with
+    | [o, "!"] => do pure (← Hex.toBytes o, none)
+    | [o, n] => do pure (← Hex.toBytes o, some (← Hex.toBytes n))
+    | _ => none
+
+/-- validate one re-read entry against the model: own memory must still read as returned; database memory
+must as long as nothing was committed or closed since (`quiet`), and is unconstrained afterwards -/
+def entryOk (quiet : Bool) (h : List (Held × Rec)) (e : Bytes × Option Bytes) : Bool :=
+  match h.find? (fun p => heldUid p.1 == e.1) with
+  | none => false
+  | some (.own bs, _) => e.2 == some bs
+  | some (.txmem bs, _) => !quiet || e.2 == some bs
+
 def step (st : St) (cmd : String) (m : KV) : Option (St × String) :=
   match cmd with
-  | "db.new" => pure ([], "ok")
-  | "db.dump" => pure (st, dump st)
+  | "db.new" => pure (([], []), "ok")
+  | "db.dump" => pure (st, dump st.1)
+  | "db.hold" =>
+    -- `UserManager.ListAllUsers` called directly; the caller keeps the returned value
+    match listAllUsers genFacts st.1 with
+    | .ok l => pure ((st.1, st.2 ++ [listHeld genFacts l]), showOut (.users l))
+    | .error p => pure (st, showPanic p)
+  | "db.reread" => do
+    let k ← getNat m "k"
+    let quiet ← getBool m "quiet"
+    let items ← (get m "items").bind parseItems
+    let h ← st.2[k]?
+    if items.length ≠ h.length ∨ !(items.all (entryOk quiet h)) then pure (st, "not-what-the-model-allows")
+    else if items.all (fun e => e.2 == some e.1) then pure (st, "same") else pure (st, "changed")
   | _ => do
     let op ← parseOp cmd m
-    let r := US.step genFacts st op
-    pure (r.1, showOut r.2)
+    let r := US.step genFacts st.1 op
+    pure ((r.1, st.2), showOut r.2)
 
 end Driver.D18
